@@ -33,7 +33,7 @@ META = dict(
          "(one per function/mode, four of them on a second input set of another length and time axis) that share the same ndarray inputs, "
          "ClimatologyConfig objects and span lists; in "
          "every state the shared objects' fingerprint equals the "
-         "Scale: every test on series of 255..4097 points (each length k*256-1, k*256, k*256+1 met) with repeat / refill; call histories include operations on 700- and 601-point records (gaps at 599/600) sharing the process with the short ones. initial one and each operation returns what it returns in the empty history. non-trivial = series contains "
+         "initial one and each operation returns what it returns in the empty history. Scale: every test on series of 255..4097 points (each length k*256-1, k*256, k*256+1 met) with repeat / refill; call histories include operations on 700- and 601-point records (gaps at 599/600) sharing the process with the short ones. non-trivial = series contains "
          "a missing marker or has length<3 (A); history of depth>=2 (B)",
     bounds={"quick": {"series_len": 5, "track_len": 4, "history_depth": 3}, "thorough": {"series_len": 7, "track_len": 5, "history_depth": 4}},
     not_judged=["which flag is returned (C02-C14)", "n-dimensional inputs"],
